@@ -6,6 +6,8 @@
    stuck waiting for entries that are nowhere to be found. *)
 From Coq Require Import List NArith Bool.
 From Wesh Require Import Model.C20_Export Proofs.C20_Export.
+From Coq Require Import String.
+From Wesh Require Import Model.MetaLog Model.C20_Registry Proofs.C20_Registry Gen.Registry GenFacts.RegistryFacts.
 Import ListNotations.
 Open Scope N_scope.
 
@@ -49,6 +51,23 @@ Theorem C20_malformed_keys_rejected :
     restore ha fs = inr Rejected.
 Proof. exact malformed_keys_rejected. Qed.
 
+(* what the restored node can OPEN: its group registry is rebuilt from the account log; with the
+   states the CURRENT source lists (generated fact) the one-to-one group of every contact that has a
+   record - blocked, removed and discarded ones included - and every joined multi-member group is
+   found by its key; listing the live states only would lose the group of a blocked contact *)
+Theorem C20_restored_groups_reachable :
+  (forall v pk st, In (pk, st) (av_contacts v) -> st <> CUndef -> reachable all_states v (GContactOf pk) = true) /\
+  (forall listed v g, In (g, true) (av_groups v) -> reachable listed v (GMultiMember g) = true) /\
+  (registry_sources = ["m.ListMultiMemberGroups"; "m.ListContactsByStatus"] /\
+   registry_contact_states = ["ToRequest"; "Received"; "Added"; "Removed"; "Discarded"; "Blocked"])%string /\
+  (reachable [CToRequest; CReceived; CAdded] (mkAV [(7, CBlocked)] []) (GContactOf 7) = false /\
+   reachable all_states (mkAV [(7, CBlocked)] []) (GContactOf 7) = true).
+Proof.
+  exact (conj every_contact_group_reachable (conj every_joined_group_reachable
+         (conj registry_lists_every_contact live_states_only_loses_groups))).
+Qed.
+
+Print Assumptions C20_restored_groups_reachable.
 Print Assumptions C20_restore_export_roundtrip.
 Print Assumptions C20_tampered_entry_not_restored.
 Print Assumptions C20_missing_key_rejected.
